@@ -52,6 +52,7 @@ func (s *Sender) Run(ctx context.Context) {
 				if stream == nil {
 					sink = s.Sink
 				} else {
+					sink = nil // a stream is in progress: do not accept another one
 					streamCancel = stream.Ctx.Done()
 				}
 				select {
